@@ -305,6 +305,101 @@ fn damage(t: &mut Tape, bytes: &mut Vec<u8>, other: &[u8], rep: &mut WorldReport
     }
 }
 
+/// Nesting that follows the schema (so the typed decoder keeps descending) or hides under an
+/// unknown top-level key (skipped through serde's IgnoredAny, which descends as well).
+/// One level of nesting is encoded by the real serializer around a marker; the bytes before and
+/// after the marker are then repeated `depth` times, so the producer never recurses itself.
+fn schema_nest(t: &mut Tape, clean: &[u8]) -> (Vec<u8>, String) {
+    const MARK: i128 = 0x0123_4567_89AB;
+    let marker = tir::Expression::Number(MARK);
+    let enc = |e: &tir::Expression| {
+        let mut out = Vec::new();
+        ciborium::into_writer(e, &mut out).unwrap();
+        out
+    };
+    let mbytes = enc(&marker);
+    let find = |hay: &[u8], needle: &[u8]| hay.windows(needle.len()).position(|w| w == needle);
+    let kind = t.draw(8);
+    let (level, lname) = match kind {
+        0 => (tir::Expression::List(vec![marker.clone()]), "List"),
+        1 => (
+            tir::Expression::Struct(tir::StructExpr {
+                constructor: 0,
+                fields: vec![marker.clone()],
+            }),
+            "Struct",
+        ),
+        2 => (tir::Expression::Tuple(Box::new((tir::Expression::None, marker.clone()))), "Tuple"),
+        3 => (tir::Expression::Map(vec![(marker.clone(), tir::Expression::None)]), "Map"),
+        4 => (
+            tir::Expression::EvalBuiltIn(Box::new(tir::BuiltInOp::Add(tir::Expression::Number(1), marker.clone()))),
+            "EvalBuiltIn/Add",
+        ),
+        5 => (
+            tir::Expression::EvalBuiltIn(Box::new(tir::BuiltInOp::Negate(marker.clone()))),
+            "EvalBuiltIn/Negate",
+        ),
+        6 => (
+            tir::Expression::Assets(vec![tir::AssetExpr {
+                policy: tir::Expression::None,
+                asset_name: tir::Expression::None,
+                amount: marker.clone(),
+            }]),
+            "Assets.amount",
+        ),
+        _ => (
+            tir::Expression::EvalCoerce(Box::new(tir::Coerce::IntoAssets(marker.clone()))),
+            "EvalCoerce",
+        ),
+    };
+    let lbytes = enc(&level);
+    let at = find(&lbytes, &mbytes).expect("marker inside one level");
+    let (pre, post) = (&lbytes[..at], &lbytes[at + mbytes.len()..]);
+    let depth = *t.pick(&[300usize, 100, 254, 255, 256, 257, 1000, 5_000, 20_000, 60_000, 65_000]);
+    let mut nest = Vec::with_capacity(depth * (pre.len() + post.len()) + 8);
+    for _ in 0..depth {
+        nest.extend_from_slice(pre);
+    }
+    nest.extend_from_slice(&enc(&tir::Expression::Number(1)));
+    for _ in 0..depth {
+        nest.extend_from_slice(post);
+    }
+    // host: a small valid Tx whose `fees` is the marker
+    let host = tir::Tx {
+        fees: marker.clone(),
+        references: vec![],
+        inputs: vec![],
+        outputs: vec![],
+        validity: None,
+        mints: vec![],
+        burns: vec![],
+        adhoc: vec![],
+        collateral: vec![],
+        signers: None,
+        metadata: vec![],
+    };
+    let (hbytes, _) = tx3_tir::encoding::to_bytes(&host);
+    if t.chance(1, 3) && !clean.is_empty() && (0xa0..0xb7).contains(&clean[0]) {
+        // unknown top-level key: bump the map header of the real artifact and append `"zz": <nest>`
+        let mut out = clean.to_vec();
+        out[0] += 1;
+        out.extend_from_slice(&[0x62, b'z', b'z']);
+        // generic CBOR nesting is enough under an ignored key
+        if t.chance(1, 2) {
+            out.extend(std::iter::repeat(0x81u8).take(depth));
+            out.push(0x01);
+            return (out, format!("append unknown key with {depth} nested arrays"));
+        }
+        out.extend_from_slice(&nest);
+        return (out, format!("append unknown key with {depth} nested {lname}"));
+    }
+    let at = find(&hbytes, &mbytes).expect("marker inside host");
+    let mut out = hbytes[..at].to_vec();
+    out.extend_from_slice(&nest);
+    out.extend_from_slice(&hbytes[at + mbytes.len()..]);
+    (out, format!("fees := {depth} nested {lname}"))
+}
+
 fn summarize(tx: &tir::Tx) -> (BTreeMap<String, Type>, Vec<String>) {
     (
         tx3_tir::reduce::find_params(tx),
@@ -365,6 +460,12 @@ fn inner_c11(world_no: u64, t: &mut Tape, rep: &mut WorldReport) {
             wire = t.bytes(n);
             damages.push(format!("{n} random bytes"));
             rep.fire("random");
+        } else if t.chance(1, 8) {
+            // a nesting bomb the typed decoder really descends into
+            let (w, what) = schema_nest(t, &clean);
+            wire = w;
+            damages.push(what);
+            rep.fire("schema-nest");
         } else {
             let n = 1 + t.weighted(&[5, 2, 1, 1]);
             for _ in 0..n {
